@@ -410,7 +410,20 @@ class Witness:
 
 
 def build_and_extract(ctx):
-    """-> (FactBase of the witness crate or None, meta, error text or None)"""
+    """-> (FactBase of the witness crate or None, meta, error text or None).  Several checks (C03, C07, C09, C14) use
+    the witness crate and may be started at the same time: building and reading it is serialised by a file lock."""
+    import fcntl
+    os.makedirs(engine.CACHE, exist_ok=True)
+    lk = open(os.path.join(engine.CACHE, "witness.lock"), "w")
+    fcntl.flock(lk, fcntl.LOCK_EX)
+    try:
+        return _build_and_extract(ctx)
+    finally:
+        fcntl.flock(lk, fcntl.LOCK_UN)
+        lk.close()
+
+
+def _build_and_extract(ctx):
     fb = ctx.fb
     fdir = ctx.fdir
     wdir = os.path.join(fdir, "witness")
